@@ -733,7 +733,7 @@ func hChecks() map[string]seqCheck {
 			}
 			v := refBlockFreq(b, m)
 			return pq(v, v)
-		}, std, big, false},
+		}, []int{100, 999, 1000, 1001, 9999, 10000, 20000}, []int{99999, 100000, 999999, 1000000}, false},
 		"poker": {100, []int{2, 4, 8}, func(b []bool, m int) []float64 { return pq(PokerProto(b, m)) }, func(b []bool, m int) []float64 { v := refPoker(b, m); return pq(v, v) }, std, big, false},
 		"poker-bytes": {104, []int{4, 8}, func(b []bool, m int) []float64 { return pq(PokerTestBytes(bitsToBytes(b), m)) }, func(b []bool, m int) []float64 { v := refPoker(b[:len(b)/8*8], m); return pq(v, v) }, std, big, false},
 		"overlapping": {100, []int{2, 3, 5, 7}, func(b []bool, m int) []float64 {
@@ -742,13 +742,13 @@ func hChecks() map[string]seqCheck {
 		}, func(b []bool, m int) []float64 { p1, p2 := refOverlapping(b, m); return []float64{p1, p2, p1, p2} }, std, []int{9999, 100003}, false},
 		"apen": {100, []int{2, 5, 7}, func(b []bool, m int) []float64 { return pq(ApproximateEntropyProto(b, m)) }, func(b []bool, m int) []float64 { v := refApEn(b, m); return pq(v, v) }, std, []int{9999, 100003}, false},
 		"runs": {100, []int{0}, func(b []bool, _ int) []float64 { return pq(RunsTest(b)) }, func(b []bool, _ int) []float64 { return pq(refRuns(b)) }, std, big, false},
-		"runsdist": {100, []int{0}, func(b []bool, _ int) []float64 { return pq(RunsDistributionTest(b)) }, func(b []bool, _ int) []float64 { v := refRunsDist(b); return pq(v, v) }, std, big, false},
+		"runsdist": {100, []int{0}, func(b []bool, _ int) []float64 { return pq(RunsDistributionTest(b)) }, func(b []bool, _ int) []float64 { v := refRunsDist(b); return pq(v, v) }, []int{100, 101, 127, 128, 159, 160, 161, 321, 642, 1000, 1283}, append([]int{2564, 5125}, big...), false},
 		"longestrun": {128, []int{1, 0}, func(b []bool, one int) []float64 { return pq(LongestRunOfOnesInABlockProto(b, one == 1)) }, func(b []bool, one int) []float64 { v := refLongestRun(b, one == 1); return pq(v, v) }, []int{128, 129, 1000, 6271, 6272, 6273}, []int{100003, 749999, 750000, 1000000}, false},
 		"binder": {100, []int{3, 7, 15}, func(b []bool, k int) []float64 { return pq(BinaryDerivativeProto(b, k)) }, func(b []bool, k int) []float64 { return pq(refBinaryDerivative(b, k)) }, std, []int{9999, 100003}, false},
 		"autocorr": {100, []int{1, 2, 8, 16, 32}, func(b []bool, d int) []float64 { return pq(AutocorrelationProto(b, d)) }, func(b []bool, d int) []float64 { return pq(refAutocorrelation(b, d)) }, std, big, false},
 		"cusum": {100, []int{1, 0}, func(b []bool, f int) []float64 { return pq(CumulativeTest(b, f == 1)) }, func(b []bool, f int) []float64 { v := refCumulative(b, f == 1); return pq(v, v) }, std, big, false},
 		"rank": {1024, []int{0}, func(b []bool, _ int) []float64 { return pq(MatrixRankProto(b, 32, 32)) }, func(b []bool, _ int) []float64 { v := refMatrixRank(b); return pq(v, v) }, []int{1024, 1025, 2048, 10240}, []int{100003, 1000000}, false},
-		"lincomp": {500, []int{500, 1000}, func(b []bool, m int) []float64 { return pq(LinearComplexityProto(b, m)) }, func(b []bool, m int) []float64 { v := refLinearComplexity(b, m); return pq(v, v) }, []int{1000, 1001, 5000}, []int{100003}, false},
+		"lincomp": {500, []int{500, 1000, 501, 9, 13}, func(b []bool, m int) []float64 { return pq(LinearComplexityProto(b, m)) }, func(b []bool, m int) []float64 { v := refLinearComplexity(b, m); return pq(v, v) }, []int{1000, 1001, 5000}, []int{100003}, false},
 		"maurer": {8967, []int{0}, func(b []bool, _ int) []float64 { return pq(MaurerUniversalTest(b)) }, func(b []bool, _ int) []float64 { return pq(refMaurer(b)) }, []int{8967, 8968, 20000}, []int{100003, 1000000}, false},
 		"dft": {100, []int{0}, func(b []bool, _ int) []float64 { return pq(DiscreteFourierTransformTest(b)) }, func(b []bool, _ int) []float64 { return pq(refDFT(b)) }, []int{100, 127, 128, 129, 1000, 1025}, []int{4099}, false},
 	}
